@@ -24,10 +24,25 @@ def build_lib(repo):
     env = dict(os.environ, CARGO_TARGET_DIR=target, CARGO_NET_OFFLINE="true")
     env.pop("RUSTC_WORKSPACE_WRAPPER", None)
     env.pop("RUSTFLAGS", None)
+    # cargo's freshness test is mtime based; a tree that was patched and restored (or a clock that moved) can leave
+    # an artefact built from other sources looking fresh.  Key the artefacts by the content hash of the tree instead.
+    th = facts.tree_hash(repo)
+    stamp = os.path.join(target, "verif-tree-hash")
+    old = open(stamp).read() if os.path.exists(stamp) else ""
+    if old != th:
+        fp = os.path.join(target, "debug", ".fingerprint")
+        if os.path.isdir(fp):
+            for d in os.listdir(fp):
+                if d.startswith("ruint-") or d.startswith("ruint_macro-"):
+                    shutil.rmtree(os.path.join(fp, d), ignore_errors=True)
+        if os.path.exists(stamp):
+            os.remove(stamp)
     p = subprocess.run(["cargo", "build", "--offline", "--lib", "-p", "ruint", "--features", FEATURES],
                        cwd=repo, env=env, stdout=subprocess.PIPE, stderr=subprocess.STDOUT, text=True)
     if p.returncode != 0:
         raise RuntimeError("witness: cargo build of /repo failed:\n" + p.stdout[-3000:])
+    with open(stamp, "w") as fh:
+        fh.write(th)
     deps = os.path.join(target, "debug", "deps")
     rlib = os.path.join(target, "debug", "libruint.rlib")
     return rlib, deps
